@@ -240,6 +240,25 @@ theorem tout_step {a b : Dur} {r : Bool} {init : String} {s : St} (hq : TOut s) 
     have h' : s.failed = none := f.1 ▸ h
     show (stopTimer s).out = .undef ∨ (stopTimer s).out = .bool ((stopTimer s).state == some "on")
     rw [f.2.2.1, f.2.2.2]; exact hq h'
+  | restore q exp sd m =>
+    simp only [step]
+    split
+    · exact hq
+    · next h =>
+      simp only [Bool.or_eq_true, Bool.not_eq_true', not_or, Bool.not_eq_false] at h
+      intro _
+      rcases restore_out (timerCfg a b r init) s q exp sd m h.2 with hu | ⟨hs, hc⟩
+      · left
+        cases ho : (restore (timerCfg a b r init) s q exp sd m).1.out <;> simp [ho, Val.isUndef] at hu ⊢
+      · cases m with
+        | raises => simp [calcFor] at hc
+        | undef => left; simp only [calcFor, Option.some.injEq] at hc; exact hc.symm
+        | normal =>
+          right
+          have hc' : some (Val.bool (q == "on")) = some (restore (timerCfg a b r init) s q exp sd .normal).1.out := by
+            rw [← hc]; simp [calcFor, calcOutput, timerCfg, St.enter, St.setInput]
+          rw [← Option.some.inj hc', hs]
+          congr 1
   | advance t =>
     simp only [step]
     split
